@@ -477,6 +477,34 @@ pub fn boundary_points(rng: &mut Rng, s: &Snap, per_row: usize) -> Vec<Vec<f64>>
     out
 }
 
+/// Points a tiny dyadic step (2^-20, 2^-30, 2^-40) off a decision hyperplane, on both sides. The
+/// exact value of `row.x - b` is then a tiny non-zero number with the right sign, which exposes any
+/// tolerance slipped into the routing predicate.
+pub fn near_boundary_points(rng: &mut Rng, s: &Snap, per_row: usize) -> Vec<Vec<f64>> {
+    let mut out = Vec::new();
+    for (_, n) in s.nodes.iter() {
+        if !n.has_children() {
+            continue;
+        }
+        for (row, b) in n.mat.iter().zip(n.bias.iter()) {
+            for p in on_hyperplane(rng, row, *b, per_row) {
+                let cands: Vec<usize> = (0..row.len()).filter(|j| row[*j] != 0.0).collect();
+                if cands.is_empty() {
+                    continue;
+                }
+                let j = *rng.pick(&cands);
+                let d = *rng.pick(&[2f64.powi(-20), 2f64.powi(-30), 2f64.powi(-40)]);
+                for sgn in [1.0, -1.0] {
+                    let mut q = p.clone();
+                    q[j] += sgn * d;
+                    out.push(q);
+                }
+            }
+        }
+    }
+    out
+}
+
 /// Standard probe set for a collection of snapshots over the same input space.
 pub fn probes(rng: &mut Rng, snaps: &[&Snap], dim: usize, budget: usize) -> Vec<Vec<f64>> {
     let mut out = lattice(rng, dim, 3, 1.0, budget / 3 + 1);
@@ -486,6 +514,7 @@ pub fn probes(rng: &mut Rng, snaps: &[&Snap], dim: usize, budget: usize) -> Vec<
             out.extend(cell_points(s, 40));
         }
         out.extend(boundary_points(rng, s, 2));
+        out.extend(near_boundary_points(rng, s, 1));
     }
     out.extend(gaussian_points(rng, dim, budget / 6 + 1, 3.0));
     if out.len() > budget * 2 {
